@@ -256,7 +256,8 @@ def run_case(case):
                                   log_level=case["loglevel"], debug=False,
                                   send_msg_timing=case.get("timing", True))
             script.mm = mm
-            mm.logger.enable_console = False
+            # the console handler stays ON (its output goes to the redirected stdout): rendering a log record is part
+            # of what the manager does with client-chosen strings (module names end up in log lines)
             mm.subscriptions = defaultdict(SortedSet)
             mm.logger_modules = SortedSet()
             # a control frame declaring fewer bytes than its definition is decoded from whatever the shared receive
